@@ -1,5 +1,14 @@
 """C18 — datasource payloads are applied faithfully or rejected, never half-applied."""
-import json as _json
+import atexit
+import os
+import shutil
+import tempfile
+
+# every real-file case lives under one per-run directory which is removed when the check process exits, whatever happened
+# (the Go interpreter removes each case's directory itself on file.close / reset; this catches shrunk cases without a file.close)
+_TMP = tempfile.mkdtemp(prefix="c18run-")
+os.environ["C18_TMP"] = _TMP
+atexit.register(shutil.rmtree, _TMP, True)
 
 from vlib import core
 from vlib.core import Case
@@ -9,7 +18,7 @@ SPEC_MODE = "spec"
 KEEP_PREFIX = 0
 SIZES = {"quick": 8000, "thorough": 60000}
 BATCH = 4000
-RULE = ("payload sequences (3-12 deliveries on one or two of the five modules, fresh handlers and cleared managers per case); payloads are "
+RULE = ("(plus real-file event sequences: 5 corpus + 4 random in quick, 60 random in thorough) payload sequences (3-12 deliveries on one or two of the five modules, fresh handlers and cleared managers per case); payloads are "
         "encoded from rule values by an independent tag-driven encoder (shuffled/omitted/null/duplicate/unknown keys, boundary numbers, out-of-range "
         "and wrongly typed values), plus null elements, empty/null/[]/whitespace, truncations, garbage, exact redeliveries, A-B-A, valid-after-invalid, "
         "same rule under another id / threshold within 1e-8 / signed zero; non-trivial = some delivery put rules in force AND the case contains a "
@@ -359,23 +368,46 @@ FILE_GOOD = {
 
 
 def file_cases(ctx, n):
+    """random event sequences on a real temp file: in-place write, truncate+write, rename-away + re-create / give up, replace by
+    rename-over (known finding), remove; contents decodable and not, always ending with file.close"""
     rng = ctx.rng
     cases = []
     for i in range(n):
         m = rng.choice(MODS)
-        pool = FILE_GOOD[m] + ["[]", "", "null", "[", "[1]", "garbage", " "]
-        first = rng.choice(FILE_GOOD[m] + ["", "[", "none"])
+        good = FILE_GOOD[m]
+        pool = good + good + ["[]", "", "null", "[", "[1]", "garbage", " "]
+        first = rng.choice(good + good + ["", "[", "none"])
         ops = [f"file.new {m} {first if first == 'none' else hexp(first)}"]
-        for _ in range(rng.randint(1, 6)):
+        away, closed, absent = False, first == "none", first == "none"
+        for _ in range(rng.randint(2, 7)):
             r = rng.random()
-            if r < 0.85:
+            if absent and not away:                    # removed for good / never existed: only a re-creation makes sense
+                ops.append(f"file.recreate {hexp(rng.choice(good))}")
+                absent = False
+            elif away:                                   # the watcher is in its re-watch retry loop
+                if r < 0.70:
+                    ops.append(f"file.recreate {hexp(rng.choice(pool))}")
+                elif r < 0.85:
+                    ops.append(f"file.replace {hexp(rng.choice(good))}")
+                else:
+                    ops.append("file.giveup")
+                    closed = absent = True
+                away = False
+            elif r < 0.40:
                 ops.append(f"file.write {hexp(rng.choice(pool))}")
+            elif r < 0.55:
+                ops.append(f"file.truncwrite {hexp(rng.choice(good + ['[]', '']))}")   # decodable only: the intermediate empty content may or may not be seen
+            elif r < 0.80:
+                ops.append("file.rename")
+                away, absent = not closed, closed
+            elif r < 0.90:
+                ops.append(f"file.replace {hexp(rng.choice(good + ['[', '[]']))}")
+                closed = True
             else:
                 ops.append("file.remove")
-        if rng.random() < 0.5:
-            ops.append("file.remove")
-            if rng.random() < 0.5:
-                ops.append(f"file.write {hexp(rng.choice(FILE_GOOD[m]))}")      # re-created after removal: the source is closed
+                closed = absent = True
+        if away:
+            ops.append(rng.choice([f"file.recreate {hexp(rng.choice(good))}", "file.giveup"]))
         ops.append("file.close")
         cases.append(Case(f"file{ctx.seed}-{i}", ops, tags=("file", m)))
     return cases
@@ -385,8 +417,9 @@ def extra(ctx, eng):
     tag_tables(ctx, eng)
     if not ctx.violations:
         exercise_only(ctx, eng)
-    if ctx.tier == "thorough" and not ctx.violations:
-        cs = file_cases(ctx, 60)
+    if not ctx.violations:
+        # real temp file + fsnotify: a small slice in the quick tier (plus the five corpus/C18/file-*.ops cases), many in thorough
+        cs = file_cases(ctx, 60 if ctx.tier == "thorough" else 4)
         eng.check(cs, "file")
         ctx.cov["file_datasource_cases"] = len(cs)
 
@@ -405,7 +438,9 @@ META = {
                    "none of the five converters can panic) a delivery either applies exactly the valid rules of the decoded list (up to the module's "
                    "own rule equality) with a nil error, or returns an error and leaves everything unchanged; exact redelivery is a no-op; empty/null/[] clear; "
                    "fromJson(toJson r) = r for every well-typed record of the five wire types, proved once for any tag table with distinct names; the abstract file "
-                   "source converges to the decoded current content and ends cleared after a removal.  Tied to the code by running payload sequences through the real "
+                   "source (in-place write, watcher look, remove, rename-away, re-create during the re-watch retries, give up, rename-over) converges to the decoded "
+                   "current content while it is open and is cleared once closed; the convergence statement is false for rename-over (known finding, witness) and "
+                   "proved for all histories without it.  Real-file cases (fsnotify, gated util.Sleep) run in every tier.  Tied to the code by running payload sequences through the real "
                    "handlers + rule managers and the compiled Lean driver (same definitions) and comparing Handle's result and GetRules after every delivery; the tag "
                    "tables are compared with reflect on every run."),
     "level_note": ("Trusted: Lean kernel; axioms propext/Classical.choice/Quot.sound; Go harness and canonical printing; text-level JSON parsing is encoding/json's "
